@@ -485,3 +485,21 @@ Definition fetch_track env canon diff m srcs := fetch_track_marks env canon diff
 (* track_unused_definitions=False *)
 Definition fetch env canon diff (m:list obj) (srcs:list (list obj)) : res (list obj) :=
   do oc <- fetch_root env canon diff m srcs; Ok (fst oc).
+
+(* ------------------------------------------------------------------ well-formed input (hypotheses of Proofs/FetchTotal.v) *)
+(* every definition carries a primary id (true of parsed documents; variable resolution compares
+   ids), and a choice-typed master definition lists its alternatives: its words are not the plain
+   None / Auto (choice_converters.fetch asserts it) *)
+Definition choice_typed (a:attrs) : bool :=
+  match get_attr (s_ "type") a with AType (TyChoice _) => true | _ => false end.
+Fixpoint master_obj_ok (o:obj) : bool :=
+  match o with
+  | Def h ws a =>
+      negb (opid h =? 0)%nat &&
+      (if choice_typed a then negb (is_plain_none ws) && negb (is_plain_auto ws) else true)
+  | Scp _ ks _ => (fix go (l:list obj) : bool :=
+                     match l with [] => true | k :: r => master_obj_ok k && go r end) ks
+  end.
+Fixpoint master_ok (m:list obj) : bool :=
+  match m with [] => true | k :: r => master_obj_ok k && master_ok r end.
+Definition srcs_ok (srcs:list (list obj)) : bool := forallb defs_have_ids_l srcs.
